@@ -465,6 +465,25 @@ def strip_sort(t):
     return t
 
 
+def simp_refs(t, drop_mut=False):
+    """reborrows are identities: refto(deref(x)) -> x, deref(refto(x)) -> x; with drop_mut also
+    f!mutN(a, ..) -> a (the place a callee may have written, seen as the place itself)"""
+    if t[0] == "app":
+        args = tuple(simp_refs(a, drop_mut) for a in t[2])
+        if t[1] == "refto" and args and args[0][0] == "app" and args[0][1] == "deref":
+            return args[0][2][0]
+        if t[1] == "deref" and args and args[0][0] == "app" and args[0][1] == "refto":
+            return args[0][2][0]
+        if drop_mut and re.search(r"!mut\d+$", t[1]) and args:
+            k = int(re.search(r"!mut(\d+)$", t[1]).group(1))
+            a = args[k] if k < len(args) else args[0]
+            return a[2][0] if a[0] == "app" and a[1] == "refto" else ("app", "deref", (a,), "U")
+        return ("app", t[1], args) + tuple(t[3:])
+    if t[0] == "tup":
+        return ("tup", tuple(simp_refs(a, drop_mut) for a in t[1]))
+    return t
+
+
 def calls(path, pat):
     return [e for e in path.state.events if re.search(pat, e[0])]
 
@@ -1845,7 +1864,7 @@ def task_read_site_wiring(scratch, tier, seed, logdir):
     try:
         SM = fld["sample_map"]
         R = r"site::reader::Reader::reset!mut0\(reader\)"
-        item = r"as_Some\(<Zip<.*?> as Iterator>::next\(.*?::zip::<.*?>\(.*?::iter\(.*?::samples\(.*?\)\), field\(as_Read\(.*?::read_genotypes\(.*?\)\), 0\)\)\)\)\)"
+        item = r"as_Some\(<Zip<.*?> as Iterator>::next\((?=.*?::samples\()(?=.*?::read_genotypes\().*?\)\)"
         want = rf"field\(as_Some\(Option::<population::Id>::map::<usize, .*?>\(input::sample::Map::get_population_id\(refto\(field\({R}, {SM}\)\), field\(field\({item}, 0\), 0\)\), <usize as From<population::Id>>::from\)\), 0\)"
         n_upd = 0
         for p in paths:
@@ -2261,8 +2280,10 @@ def task_projection_wiring(scratch, tier, seed, logdir):
         refs = lambda names: {k: v for i, n in enumerate(names, 1) for k, v in ((f"_{i}", ("ref", f"${n}")), (f"${n}", V(n, "U")))}
         rs = only(r"project\.rs>::project_unchecked$", ["PartialProjection"], refs(["self", "project_from", "from"]))
         PT, TB = pp.get("project_to"), pp.get("to_buf")
-        want = f"Projected::<'_>::new_unchecked(project_from, refto(field(self, {PT})), from, refto(count::Count::set_zero!mut0(refto(field(self, {TB})))))"
-        if len(rs) != 1 or rs[0].state.pc or show(rs[0].ret) != want:
+        want = f"Projected::<'_>::new_unchecked(project_from, refto(field(self, {PT})), from, refto(field(self, {TB})))"
+        zeroed = [e for r in rs for e in r.state.events if re.search(r"Count::set_zero$", e[0]) and show(simp_refs(e[1][0], True)) == f"refto(field(self, {TB}))"]
+        first = [r.state.events[0][0] for r in rs if r.state.events]
+        if len(rs) != 1 or rs[0].state.pc or show(simp_refs(rs[0].ret, True)) != want or len(zeroed) != 1 or not re.search(r"Count::set_zero$", first[0]):
             dev.append("PartialProjection::project_unchecked is not [to_buf.set_zero(); Projected::new_unchecked(project_from, &project_to, from, &mut to_buf)]: " + "; ".join(show(r.ret) for r in rs)[:300])
         rs = only(r"project\.rs>::project_unchecked$", ["&mut Projection"], refs(["self", "from"]))
         want = f"PartialProjection::project_unchecked(refto(field(self, {pj['inner']})), refto(field(self, {pj['project_from']})), from)"
